@@ -31,13 +31,14 @@ def enumerate_histories(maxlen):
 
 
 class Hist:
-    def __init__(self, root, seed=0):
+    def __init__(self, root, seed=0, pack_target=4 * 1024 ** 3, empty_first=False):
         from disk_objectstore import Container  # pylint: disable=import-outside-toplevel
 
         self.Container = Container
         self.root = root
+        self.empty_pending = empty_first  # the next new content is the EMPTY object (it adds zero bytes to a pack)
         first = Container(root)
-        first.init_container(clear=True, pack_size_target=4 * 1024 ** 3)
+        first.init_container(clear=True, pack_size_target=pack_target)
         first.close()
         self.handles = {}
         self.model = {}
@@ -55,6 +56,9 @@ class Hist:
             c.close()
 
     def new_content(self):
+        if self.empty_pending:
+            self.empty_pending = False
+            return b''
         self.n += 1
         return gen.content(['text', 20 + self.n % 50, self.n])
 
@@ -75,13 +79,19 @@ class Hist:
                     if cont.get_object_content(k) != self.model[k]:
                         bad = 'get_object_content returned wrong bytes'
             elif kind == 'get_objects_content':
-                got = cont.get_objects_content(keys)
+                skip = (self.n + len(keys)) % 2 == 0  # both ways of asking: skip missing keys, or report them as None
+                got = cont.get_objects_content(keys, skip_if_missing=skip)
                 if got != self.model:
-                    bad = f'get_objects_content misses/mis-reads {len(set(self.model) - set(got))} acknowledged object(s)'
+                    lost = [k for k in keys if got.get(k) is None]
+                    bad = f'get_objects_content(skip_if_missing={skip}) misses/mis-reads {len(lost) or len(set(self.model) ^ set(got))} acknowledged object(s)'
             elif kind == 'get_objects_meta':
-                got = dict(cont.get_objects_meta(keys))
-                if set(got) != set(keys) or any(got[k].size != len(self.model[k]) for k in got):
-                    bad = f'get_objects_meta misses {len(set(keys) - set(got))} acknowledged object(s) or reports a wrong size'
+                skip = (self.n + len(keys)) % 2 == 1
+                pairs = list(cont.get_objects_meta(keys, skip_if_missing=skip))
+                got = dict(pairs)
+                if (set(got) != set(keys) or len(pairs) != len(got) or any(m.type.value == 'missing' for m in got.values())
+                        or any(got[k].size != len(self.model[k]) for k in got)):
+                    bad = (f'get_objects_meta(skip_if_missing={skip}) misses {len(set(keys) - set(got))} acknowledged object(s), reports one '
+                           f'as missing / twice, or reports a wrong size')
             elif kind == 'list_all_objects':
                 got = set(cont.list_all_objects())
                 missing = set(keys) - got
@@ -129,9 +139,13 @@ def run_enumerated(case):
     try:
         for i, hist in enumerate(case['histories']):
             root = os.path.join(base, f'c{i}')
-            H = Hist(root, seed=i)  # noqa: N806
+            H = Hist(root, seed=i, pack_target=hist.get('pack_target', 4 * 1024 ** 3), empty_first=hist.get('empty_first', False))  # noqa: N806
             try:
                 trace = []
+                if hist.get('empty_first'):
+                    counters['histories-adding-the-empty-object'] += 1
+                if hist.get('pack_target', 4 * 1024 ** 3) < 10 ** 6:
+                    counters['histories-with-several-packs'] += 1
                 for pos, st in enumerate(hist['skeleton']):
                     if pos == hist['pin_pos']:
                         H.query('A', hist['pin_kind'], trace + ['<pin>'])
@@ -144,7 +158,7 @@ def run_enumerated(case):
                     H.query('A', view, trace)
                 counters.update(H.counters)
                 counters['histories'] += 1
-                seen.add((tuple(hist['skeleton']), hist['pin_pos'], hist['pin_kind']))
+                seen.add((tuple(hist['skeleton']), hist['pin_pos'], hist['pin_kind'], hist.get('pack_target'), hist.get('empty_first')))
                 for mech, msg in H.problems[:2]:
                     vios.append(common.violation(mech, msg, {'history': hist}))
                 if sample is None and len(hist['skeleton']) >= 3:
@@ -184,7 +198,8 @@ def run_random(case):
     try:
         for i in range(case['n']):
             steps = case.get('explicit') or random_history(rnd)
-            H = Hist(os.path.join(base, f'c{i}'), seed=i)  # noqa: N806
+            conf = case.get('conf') or {'pack_target': rnd.choice([60, 300, 4 * 1024 ** 3]), 'empty_first': rnd.random() < 0.3}
+            H = Hist(os.path.join(base, f'c{i}'), seed=i, **conf)  # noqa: N806
             try:
                 trace = []
                 for st in steps:
@@ -201,7 +216,7 @@ def run_random(case):
                 counters['histories'] += 1
                 seen.add(tuple(map(tuple, steps)))
                 for mech, msg in H.problems[:2]:
-                    vios.append(common.violation(mech, msg, {'explicit': steps}))
+                    vios.append(common.violation(mech, msg, {'explicit': steps, 'conf': conf}))
                 if sample is None:
                     sample = {'history': trace}
             finally:
